@@ -33,7 +33,11 @@ namespace BitSerializer::Detail
 	bool CBinaryStreamReader::SetPosition(size_t pos)
 	{
 		const std::streamsize cachedSize = mEndDataPtr - mBuffer;
+#ifdef BITSERIALIZER_VERIF
+		if (!Verif::skipFastSeek && pos >= mStreamPos - cachedSize && pos < mStreamPos)
+#else
 		if (pos >= mStreamPos - cachedSize && pos < mStreamPos)
+#endif
 		{
 			const auto chunkOffset = pos - (mStreamPos - cachedSize);
 			mStartDataPtr = mBuffer + chunkOffset;
@@ -85,7 +89,11 @@ namespace BitSerializer::Detail
 
 	std::string_view CBinaryStreamReader::ReadSolidBlock(size_t blockSize)
 	{
+#ifdef BITSERIALIZER_VERIF
+		if (blockSize > static_cast<size_t>(mEndBufferPtr - mBuffer)) {
+#else
 		if (blockSize > chunk_size) {
+#endif
 			return {};
 		}
 
